@@ -52,7 +52,8 @@ class HarnessError(Exception):
 
 
 class Replayer:
-    def __init__(self, vals):
+    def __init__(self, vals, shift=0):
+        self.shift = shift          # real value = specification value - shift (cfg files cannot hold negative numbers)
         from qubovert.sim import AnnealResults, AnnealResult
         self.AR, self.R = AnnealResults, AnnealResult
         self.c = {1: AnnealResults(), 2: AnnealResults()}
@@ -63,7 +64,7 @@ class Replayer:
         i = self.next_id
         self.next_id += 1
         spin = (i % 2 == 1)
-        return self.R(make_state(i, spin), v, spin)
+        return self.R(make_state(i, spin), v - self.shift, spin)
 
     def proj_elem(self, r):
         try:
@@ -74,6 +75,8 @@ class Replayer:
             v = r.value
             if not isinstance(v, int):
                 v = -999
+            else:
+                v += self.shift
             return [i, v, sp]
         except Exception:
             return [-1, -999, False]
@@ -113,6 +116,19 @@ class Replayer:
                 c[a[0]].clear()
             elif name == "sort":
                 c[a[0]].sort()
+            elif name == "sortkey":
+                key = {"id": lambda r: decode_state(r.state)[0], "negv": lambda r: -r.value, "v": lambda r: r.value}[a[1]]
+                c[a[0]].sort(key=key, reverse=bool(a[2]))
+            elif name in ("extend_iter", "iadd_iter"):
+                src = list(c[a[1]])
+                other = (r for r in src) if self.next_id % 2 else map(lambda r: r, src)      # one-shot iterators
+                if name == "extend_iter":
+                    c[a[0]].extend(other)
+                else:
+                    x = c[a[0]]
+                    x += other
+                    c[a[0]] = x
+                    rtype = type(x).__name__
             elif name == "extend":
                 other = list(c[a[1]]) if a[2] else c[a[1]]
                 c[a[0]].extend(other)
@@ -145,13 +161,13 @@ class Replayer:
                 elif name == "reversed":
                     res, d = c[a[0]][::-1], a[1]
                 elif name == "filter":
-                    t = a[1]
+                    t = a[1] - self.shift
                     res, d = c[a[0]].filter(lambda r: r.value <= t), a[2]
                 elif name == "filter_states":
                     par = a[1]
                     res, d = c[a[0]].filter_states(lambda s: decode_state(s)[0] % 2 == par), a[2]
                 elif name == "apply_function":
-                    R, mx, mn = self.R, self.maxv, self.minv
+                    R, mx, mn = self.R, self.maxv - self.shift, self.minv - self.shift
                     res, d = c[a[0]].apply_function(lambda r: R(r.state, mx + mn - r.value, r.spin)), a[1]
                 elif name == "convert_states":
                     res, d = c[a[0]].convert_states(lambda s: dict(s)), a[1]
@@ -181,7 +197,7 @@ class _Plain(list):
 
 ACTION_TO_OP = {
     "DoAppend": "append", "DoAddState": "add_state", "DoInsert": "insert", "DoPop": "pop", "DoRemove": "remove",
-    "DoClear": "clear", "DoSort": "sort", "DoSetItem": "setitem", "DoDelItem": "delitem", "DoSetSlice": "setslice",
+    "DoClear": "clear", "DoSort": "sort", "DoSortKey": "sortkey", "DoSetItem": "setitem", "DoDelItem": "delitem", "DoSetSlice": "setslice",
     "DoDelSlice": "delslice", "DoCopy": "copy", "DoAdd": "add", "DoMul": "mul", "DoGetSlice": "getslice",
     "DoEveryOther": "everyother", "DoReversed": "reversed", "DoFilter": "filter", "DoFilterStates": "filter_states",
     "DoApply": "apply_function", "DoConvertStates": "convert_states", "DoToBoolean": "to_boolean",
@@ -196,13 +212,13 @@ def op_of_label(label):
     return [ACTION_TO_OP[name]] + args
 
 
-def replay_ops(ops_list, vals):
+def replay_ops(ops_list, vals, shift=0):
     """ops_list: list of op sequences -> trace records"""
     traces = []
     for tid, ops in enumerate(ops_list, 1):
-        rp = Replayer(vals)
+        rp = Replayer(vals, shift)
         steps = [rp.apply(op) for op in ops]
-        traces.append({"tid": tid, "steps": steps})
+        traces.append({"tid": tid, "steps": steps, "shift": shift})
     return traces
 
 
@@ -263,7 +279,7 @@ def _validate(out, wd, traces, vals_set, label):
         step = tr["steps"][pos - 1] if 0 < pos <= len(tr["steps"]) else None
         opname = step["op"][0] if step else "?"
         out.violation(clause, "%s after %s" % (clause, opname),
-                      {"failing_step": step, "position": pos, "history": ops[-8:]}, {"ops": ops, "vals": sorted(vals_list(vals_set))})
+                      {"failing_step": step, "position": pos, "history": ops[-8:]}, {"ops": ops, "vals": sorted(vals_list(vals_set)), "shift": tr.get("shift", 0)})
     if r.violated and not r.viol_lines:
         out.violation(r.violated[0], r.violated[0], r.stdout[-1500:], None)
     return r
@@ -280,7 +296,7 @@ def run(tier, out, replay=None):
         if replay:
             rec = json.load(open(replay))["record"]
             vals = "{%s}" % ", ".join(str(v) for v in rec["vals"])
-            traces = replay_ops([rec["ops"]], rec["vals"])
+            traces = replay_ops([rec["ops"]], rec["vals"], rec.get("shift", 0))
             validate(out, wd, traces, vals, "replay")
             out.sample({"replayed_ops": rec["ops"]})
             return
@@ -318,7 +334,7 @@ def run(tier, out, replay=None):
         if not {"BestIsMin", "NoRaise"} <= set(rejected):
             out.notes.append("VACUITY WARNING: negative configuration not rejected: %s" % rejected)
         # 2. every transition of a small instance, replayed on the real class
-        tiny = {"Vals": "{1, 2}", "MaxLen": 2, "MaxId": 2, "Fixed": "TRUE"}
+        tiny = {"Vals": "{0, 1}", "MaxLen": 2, "MaxId": 2, "Fixed": "TRUE"}
         write_cfg(cfg, "Spec", tiny, ["BestIsMin"], (), view="View")
         dump = os.path.join(wd, "g")
         rd = run_tlc("AnnealResults", cfg, timeout=900, workers=8, extra=["-dump", "dot,actionlabels", dump], name="ar_dump")
@@ -330,11 +346,11 @@ def run(tier, out, replay=None):
         out.set("graph_edges_replayed", covered)
         out.set("exhaustive", covered == total)
         ops_list = [[op_of_label(l) for l in w] for w in walks]
-        traces = replay_ops(ops_list, [1, 2])
+        traces = replay_ops(ops_list, [0, 1])
         out.sample({"ops": ops_list[0][:12], "last_step": traces[0]["steps"][min(11, len(traces[0]["steps"]) - 1)]})
-        validate(out, wd, traces, "{1, 2}", "walk")
+        validate(out, wd, traces, "{0, 1}", "walk")
         # 3. long random behaviours from a larger instance (simulation mode)
-        big = {"Vals": "{1, 2, 3}", "MaxLen": 4, "MaxId": 12, "Fixed": "TRUE"}
+        big = {"Vals": "{0, 1, 3}", "MaxLen": 4, "MaxId": 12, "Fixed": "TRUE"}
         write_cfg(cfg, "Spec", big, ["BestIsMin", "NoRaise"], ())
         simdir = os.path.join(wd, "sim")
         os.makedirs(simdir)
@@ -348,10 +364,10 @@ def run(tier, out, replay=None):
             if ops:
                 ops_list.append(ops)
         out.set("simulated_behaviours", len(ops_list))
-        traces = replay_ops(ops_list, [1, 2, 3])
+        traces = replay_ops(ops_list, [0, 1, 3], shift=1)       # the real values are the specification's minus 1: -1, 0, 2
         if traces:
             out.sample({"simulated_ops": ops_list[0][:10]})
-            validate(out, wd, traces, "{1, 2, 3}", "sim")
+            validate(out, wd, traces, "{0, 1, 3}", "sim")
         out.assumptions += [
             "every AnnealResult created by the harness carries a distinct state, so `best is an element` means the same under == and identity",
             "k * res (reflected multiplication, returns a plain list) and reverse() are not judged: not in the property's list",
